@@ -42,7 +42,7 @@ def cases(rng, tier):
 		for ul in {0, 1, total // 2, max(total - 1, 0)}:
 			if ul <= total:
 				yield ('rt', bytes(rng.choice(b'abcXYZ09\xe9') for _ in range(ul)), bytes(rng.randrange(256) for _ in range(total - ul)))
-	n = 60000 if tier == 'thorough' else 3000
+	n = 60000 if tier == 'thorough' else 8000
 	for _ in range(n):
 		ul = rng.choice((0, 1, 5, 20, 28, 29, 56, 57, 58, 100, 300))
 		pl = rng.choice((0, 1, 5, 27, 28, 29, 57, 113, 114, 115, 300))
